@@ -432,7 +432,8 @@ int main(int argc, char **argv)
     const QStringList passwords = { QStringLiteral("pencil"), QStringLiteral("p,=\"\\"), QStringLiteral("пароль"), QStringLiteral("\U0001F600"), QStringLiteral("x"), QString(200, QLatin1Char('y')) };
     const QList<QByteArray> salts = { QByteArray(1, 'z'), QByteArray::fromHex("00ff4125c247e43ab1e93c6dff76007f"), QByteArray(64, char(0x5a)) };
     const QList<int> iters = { 1, 2, 4096 };
-    const QList<QByteArray> exts = { "3rfcNHYJY1ZVvWVs7j", "%hvYDpWUa2RaTCAfuxFIlj)hNlF$k0", "x" };
+    // (a nonce is any printable text without ','; "=3D" and "=2C" are ordinary characters there, not escapes)
+    const QList<QByteArray> exts = { "3rfcNHYJY1ZVvWVs7j", "%hvYDpWUa2RaTCAfuxFIlj)hNlF$k0", "x", "=3Dabc=2Cdef", "2Cx" };
 
     if (ctx.replay) {
         const auto &r = ctx.replayCase;
